@@ -10,6 +10,7 @@ import itertools
 from typing import Iterator, List, Optional, Tuple
 
 import z3
+from .slicing import fold as _fold
 
 from .source import Repo, ClassInfo, strip_docstring, is_static, is_classmethod, is_property, BUILTIN_EXC, \
     builtin_exc_subclass
@@ -46,6 +47,7 @@ class EngineBase:
         self.n_solver = 0
         self.t_solver = 0.0
         self._feas_cache = {}
+        self._exact = False
         self._fresh = itertools.count()
         self._strtab = {}
         self.no_contract_for = set()      # quals whose body is executed even if a contract exists
@@ -58,6 +60,8 @@ class EngineBase:
         self.external_values = {}         # dotted external name -> value (e.g. math.pi)
         self.opaque_spec = set()          # spec functions treated as uninterpreted in codec mode
         self.spec_module_names = set()
+        self.opaque_always = set()
+        self.real_spec = set()         # opaque spec functions returning a real
         self.axioms = []                  # facts about global constants, assumed at the start of every run
         self.uf = {}
         self.cur_obl_prefix = ""
@@ -71,16 +75,20 @@ class EngineBase:
 
     def _solver(self):
         s = z3.Solver()
-        s.set("timeout", self.timeout_ms)
+        s.set("timeout", self.timeout_ms if self._exact else min(self.timeout_ms, 1500))
         return s
 
     def feasible(self, pc, extra=None) -> bool:
         if extra is not None:
-            e = z3.simplify(extra)
+            e = _fold(extra)
             if z3.is_true(e):
                 return True if not pc else self.feasible(pc)
             if z3.is_false(e):
                 return False
+            if self.spec_mode and not self._exact:
+                # inside specifications branches are not pruned by the solver (both sides are merged under their
+                # guards anyway); only constant folding above decides
+                return True
             from .slicing import relevant
             cs = relevant(pc, [extra]) + [extra]
         else:
@@ -100,16 +108,21 @@ class EngineBase:
         return res
 
     def valid(self, pc, goal) -> bool:
-        g = z3.simplify(goal)
+        g = _fold(goal)
         if z3.is_true(g):
             return True
-        return not self.feasible(pc, z3.Not(goal))
+        saved = self._exact
+        self._exact = True
+        try:
+            return not self.feasible(pc, z3.Not(goal))
+        finally:
+            self._exact = saved
 
     def add_obligation(self, st: State, label: str, goal, kind="side"):
         if self.spec_mode and getattr(self, "spec_polarity", "prove") == "assume":
             # an assumed formula is the same bit-vector formula its prover discharged: no new side condition
             return
-        g = z3.simplify(goal)
+        g = _fold(goal)
         if z3.is_true(g):
             return
         self.side_obligations.append(Obligation(f"{self.cur_obl_prefix}{label}#{len(self.side_obligations)}",
@@ -155,7 +168,7 @@ class EngineBase:
         if isinstance(v, NoneV):
             return None
         if is_bool(v):
-            s = z3.simplify(v)
+            s = _fold(v)
             if z3.is_true(s):
                 return True
             if z3.is_false(s):
@@ -164,7 +177,7 @@ class EngineBase:
         if self.is_int(v):
             return self.T.as_const(v)
         if is_real(v):
-            s = z3.simplify(v)
+            s = _fold(v)
             if z3.is_rational_value(s):
                 return s.numerator_as_long() / s.denominator_as_long()
         return None
